@@ -72,10 +72,20 @@ pub fn error_fingerprint(full: &str) -> String {
 /// like `render(..).summary_with_error()`, but a failure is identified by its whole message
 /// (through `error_fingerprint`), not just the first line
 pub fn render_full(t: &Template, data: &Object) -> String {
-    match render(t, data) {
+    let streamed = match render(t, data) {
         Out::Err(_) => format!("err:{}", error_fingerprint(&last_error_text().unwrap_or_default())),
         other => other.summary(),
+    };
+    // the String-returning entry point as well (both profiles): it must tell the same story
+    let buffered = match guard(|| t.render(data)) {
+        Ok(Ok(s)) => format!("ok:{s}"),
+        Ok(Err(e)) => format!("err:{}", error_fingerprint(&e.to_string())),
+        Err(p) => format!("panic:{}", p.key()),
+    };
+    if buffered != streamed {
+        return format!("render()-and-render_to()-disagree: render() = {} / render_to = {}", buffered.chars().take(300).collect::<String>(), streamed.chars().take(300).collect::<String>());
     }
+    streamed
 }
 
 pub fn first_line(e: &liquid::Error) -> String {
